@@ -590,7 +590,7 @@ class Gen:
         o["file_name"] = "log-%d.csv" % self.nlog
         return self.done(o, "logger", path)
 
-    KINDS = ["leaf"] * 4 + ["vec"] * 2 + ["dist"] * 4 + ["joint"] * 3 + ["site", "subst", "tree", "clock", "ctmc"] + ["taxon", "taxa", "taxa0", "tree"]
+    KINDS = ["leaf"] * 4 + ["vec"] * 2 + ["dist"] * 4 + ["joint"] * 3 + ["site", "subst", "tree", "clock", "ctmc"] + ["taxon", "taxa", "taxa0", "tree", "site", "site", "subst"]
 
     def program(self):
         ntop = self.d(st.integers(2, self.max_top))
@@ -625,7 +625,7 @@ class Gen:
 # --------------------------------------------------------------------------- faults
 FAULTS = [
     "dup_sibling", "dup_ancestor", "dup_ancestor", "dup_distant", "dup_toplevel", "dangling", "forward", "enclosing",
-    "missing_id", "missing_type", "unknown_type", "not_object", "plate_not_in_list", "plate_dup", "dup_empty", "dup_empty",
+    "missing_id", "missing_type", "unknown_type", "not_object", "plate_not_in_list", "plate_dup", "dup_empty", "dup_empty", "optional_slot", "optional_slot", "dangling_key", "dangling_key",
 ]
 
 
@@ -673,6 +673,50 @@ def inject(g, spec, kind):
     def extra_param(id_):
         return {"id": id_, "type": "Parameter", "tensor": [0.5]}
 
+    if kind == "dangling_key":
+        # a reference to nothing that is spelled like a key of the object that makes it (or like "id",
+        # "type", a class name), placed in the parameters of a distribution
+        dists = [x for x in defs if x["cls"] == "Distribution" and isinstance(jget(spec, x["path"]).get("parameters"), dict)
+                 and jget(spec, x["path"])["parameters"]]
+        if dists and d(st.booleans()):
+            o = jget(spec, d(st.sampled_from(dists))["path"])
+        else:
+            o = {"id": g.fresh(), "type": "Distribution", "distribution": "torch.distributions.Normal",
+                 "x": {"id": g.fresh(), "type": "Parameter", "tensor": [0.5]}, "parameters": {"loc": 0.0, "scale": 1.0}}
+            spec.append(o)
+        names = [k for k in list(o) + ["Distribution", "Parameter", "id", "type"] if k not in g.used]
+        arg = d(st.sampled_from(sorted(o["parameters"])))
+        o["parameters"][arg] = d(st.sampled_from(names or ["nowhere"]))
+        return kind
+    if kind == "optional_slot":
+        # a key that is optional for its holder (mu / invariant of a site model) holds a reference to
+        # nothing, to a later definition, to the holder itself, or something that is not an object
+        id_ = g.fresh()
+        cls = d(st.sampled_from(["ConstantSiteModel", "InvariantSiteModel", "WeibullSiteModel", "torchtree.evolution.site_model.WeibullSiteModel"]))
+        o = {"id": id_, "type": cls}
+        if cls.endswith("WeibullSiteModel"):
+            o["categories"] = d(st.integers(1, 4))
+            o["shape"] = {"id": g.fresh(), "type": "Parameter", "tensor": [d(logu(0.1, 10.0))]}
+        if cls == "InvariantSiteModel":
+            o["invariant"] = {"id": g.fresh(), "type": "Parameter", "tensor": [d(fl(0.05, 0.9))]}
+        key = "mu" if cls in ("ConstantSiteModel", "InvariantSiteModel") else d(st.sampled_from(["mu", "invariant"]))
+        how = d(st.integers(0, 4))
+        later = None
+        if how == 0:
+            o[key] = d(st.sampled_from(["nowhere", "mu", "invariant", "type", "shape", ""]))
+            while o[key] in g.used:
+                o[key] += "_"
+        elif how == 1:
+            o[key] = id_
+        elif how == 2:
+            later = g.fresh()
+            o[key] = later
+        else:
+            o[key] = d(st.sampled_from([None, 0.5, 2, False, True]))
+        spec.append(o)
+        if later is not None:
+            spec.append(extra_param(later))
+        return kind
     if kind == "dup_empty":
         # the id of an (attribute-less taxon / empty Taxa) is defined a second time: at top level, inside
         # another list, inside its own definition, as a sibling; by the same or by another class
@@ -773,7 +817,10 @@ def inject(g, spec, kind):
                 return kind
             spec.append({"id": g.fresh(), "type": "ViewParameter", "indices": "0:1", "parameter": 3 if kind == "not_object" else "nowhere"})
             return kind if kind == "not_object" else "dangling"
-        what, s = d(st.sampled_from(sites))
+        # slots that are optional for their holder deserve their share: a loader that falls back to the
+        # default there would accept the specification silently
+        opt = [x for x in sites if x[1]["path"][-1] in ("mu", "invariant")]
+        what, s = d(st.sampled_from(opt if (opt and d(st.booleans())) else sites))
         if what == "def":
             # the whole inline definition is replaced: forget what it defined
             gone = [x for x in defs if x["path"][: len(s["path"])] == s["path"]]
@@ -781,10 +828,24 @@ def inject(g, spec, kind):
             for r in refs:
                 if r["id"] in gone_ids and r["path"][: len(s["path"])] != s["path"]:
                     pass  # these become dangling as well: still one kind of fault (dangling)
+        # spellings that a loader could confuse with something else: the keys of the enclosing object
+        # and of its ancestors, names of registered classes, "id", "type" (only if not defined anywhere)
+        sus = []
+        for k in range(len(s["path"])):
+            o = jget(spec, s["path"][:k])
+            if isinstance(o, dict):
+                sus += [key for key in o if isinstance(key, str)]
+        sus += ["id", "type", "Parameter", "Distribution", "torchtree.Parameter", "parameters", "x"]
+        sus = sorted({n for n in sus if n not in g.used and "{" not in n and not n.endswith("*")})
         if kind == "dangling":
-            jset(spec, s["path"], d(st.sampled_from(["nowhere", "undefined.id", "zz", ""])))
+            plain = ["nowhere", "undefined.id", "zz", ""]
+            jset(spec, s["path"], d(st.sampled_from(sus if (sus and d(st.booleans())) else plain)))
         elif kind == "forward":
-            id_ = g.fresh()
+            if sus and d(st.booleans()):
+                id_ = d(st.sampled_from(sus))
+                g.used.add(id_)
+            else:
+                id_ = g.fresh()
             jset(spec, s["path"], id_)
             spec.append(extra_param(id_))
         elif kind == "enclosing":
